@@ -7,6 +7,12 @@ CONSTANTS
   Aliases = {"bits", "nl", "nopad", "urlsafe", "space"}
   CoverAliases = {"bits", "nl", "nopad"}
   CoverFaultProofs = {"correct", "empty"}
+  DonorIdfs = {"absent", "right"}
+  ForgedIdfs = {"absent"}
+  HistLogs = {"L1"}
+  HistProofs = {"correct", "empty"}
+  HistFaults = {"ctx"}
+  HistTs = {1}
   Depth = 2
 INIT Init
 NEXT CoverNext
